@@ -183,9 +183,13 @@ func (ctxt *CredentialHelperContext) GetCredentialHelper(helper CredentialHelper
 		}
 	}
 
-	ctxt.commandCredHelper.protectProtocol = ctxt.urlConfig.Bool("credential", rawurl, "protectProtocol", true)
+	// Each wrapper gets its own copy of the command helper: the setting
+	// is per URL, and the context is shared by every request (and
+	// goroutine) of the client.
+	commandCredHelper := *ctxt.commandCredHelper
+	commandCredHelper.protectProtocol = ctxt.urlConfig.Bool("credential", rawurl, "protectProtocol", true)
 
-	return CredentialHelperWrapper{CredentialHelper: NewCredentialHelpers(append(helpers, ctxt.commandCredHelper)), Input: input, Url: u}
+	return CredentialHelperWrapper{CredentialHelper: NewCredentialHelpers(append(helpers, &commandCredHelper)), Input: input, Url: u}
 }
 
 // AskPassCredentialHelper implements the CredentialHelper type for GIT_ASKPASS
